@@ -495,6 +495,13 @@ class CT:
         if k == "from_bytes":
             return "from_%s_bytes::<%s>(%s)" % (x[1], x[2], r(x[3]))
         if k == "fn":
+            # a private function of the analysed crates used as a value (`position(is_sentinel)`) is what it does, like a closure without
+            # captures; public and foreign functions keep their names
+            d = x[2] if len(x) > 2 and isinstance(x[2], dict) else {}
+            f = self.F.fn_by_canon(d.get("canon") or "") if d.get("krate") in LOCAL_CRATES else None
+            if f is not None and f.j.get("vis") != "Public" and not f.impl_trait and f.argc <= 2 and len(f.blocks or []) <= 12:
+                # (a closure's first parameter is its environment: number the function's parameters as a closure's would be)
+                return "closure<%s>()" % re.sub(r"\barg(\d+)\b", lambda m: "arg%d" % (int(m.group(1)) + 1), self.closure_text(f.canon))
             return "fn " + x[1]
         if k == "pref":
             return "&const " + r(x[1])
@@ -1282,6 +1289,23 @@ def check(run, rule, fn, want, F, what="", key=None, renames=None, hyps=None, in
     run.bad(rule, k, "%sbehaviour differs from the specified summary: %s" % ((what + ": ") if what else "", diffs[0]),
             fn.where(), expected=fmt(want).splitlines(), found=fmt(got).splitlines())
     return False
+
+
+def equals_provided(F, fn, want, renames=None, hyps=None):
+    """is this (unspecified) override of a provided trait method the provided method itself, written out for the implementing type?  The
+    override is summarised with the impl's other trait methods kept as calls on `Self`, and compared with the specification of the
+    provided method.  -> list of differences (empty = same behaviour)"""
+    def inl(g, ev):
+        return inline_local(g, ev) and not (g.impl_trait == fn.impl_trait and g.impl_self == fn.impl_self)
+    got = summarize(F, fn, renames=renames, inline=inl)
+    me = "<%s as " % fn.impl_self
+
+    def sub(txt):
+        return txt.replace(me, "<Self as ")
+    got2 = {"outcomes": [{"text": sub(o["text"]), "when": [[[l[0], sub(l[1]), l[2]] for l in c] for c in o["when"]]} for o in got["outcomes"]],
+            "truncated": got.get("truncated", False)}
+    got2["outcomes"].sort(key=lambda o: o["text"])
+    return compare(want, got2, hyps)
 
 
 def _spec_calls(want):
